@@ -170,9 +170,9 @@ def expand(c, opslists, family, quick):
             # table pre-filled with 26 entries (64 buckets: the spellings of a case-insensitive key only part
             # ways in the hash from bit 5 on, i.e. from 64 buckets on)
             if family == "all-calls":
-                combos = [(k, 0) for k in HT_KINDS] + ([("strvp", 26), ("dict", 26), ("gen", 26)] if quick else [("strvp", 26)])
+                combos = [(k, 0) for k in HT_KINDS] + ([("strvp", 26), ("dict", 26)] if quick else [("strvp", 26)])
             elif quick:
-                combos = [("gen", 0), ("strvp", 0)]
+                combos = [("gen", 0), ("strvp", 26)]
             else:
                 combos = [("gen", 26), ("strvp", 26), ("dict", 26)]
             for k, pre in combos:
